@@ -1,17 +1,16 @@
-\* C11 quick A: every module graph over 3 modules (<= 2 requires each; form and
-\* load-time bump of an edge fixed by its position), every form of requiring
-\* the first module followed by the bumps it makes possible
+\* C11 simulation: random module graphs (random forms and bumps), random
+\* importer programs of 4 commands (run with -simulate)
 CONSTANTS
   Interps = {"i1"}
   UnwindOnFailure = TRUE
   Mode = "c11"
   ModSeq <- Mods3
   MaxOut = 2
-  GenRot = TRUE
+  GenRot = FALSE
   MaxCtr = 1
   LoadCap = 2
-  MaxReq = 2
-  CmdsOf <- C11Entry
+  MaxReq = 4
+  CmdsOf <- C11Cmds
   Export = TRUE
 SPECIFICATION Spec
 INVARIANT TypeOK
